@@ -5,3 +5,5 @@ import DateutilVerif.Properties.C09
 #print axioms C09.diff_normalised
 #print axioms C09.diff_largest_shift
 #print axioms C09.diff_self_empty
+#print axioms C09.diff_inverse_distinct_objects_partial
+#print axioms C09.diff_inverse_distinct_objects_counterexample
